@@ -112,6 +112,42 @@ fn c02_register_step_g<const BASE: i32>() {
     core::mem::forget(c);
 }
 
+/// Flush-time registration (`take_batch`) of TWO queued data packets in arbitrary order relative to
+/// each other and to the cumulative-ACK mark (a retransmission may sit anywhere in a batch): both are
+/// outstanding afterwards, counted once each, and INV is re-established for every member.
+fn c02_take_batch_step_g<const BASE: i32>() {
+    let (mut c, p) = any_link_with_log::<BASE>();
+    kani::assume(p.n <= 2); // leave room for two more in the 4-entry map model
+    let a = any_seq::<BASE>();
+    let b = any_seq::<BASE>();
+    kani::assume(a != b);
+    c.batch_sender.queue_packet(&[1u8], Some(a as u32), any_time());
+    c.batch_sender.queue_packet(&[2u8], Some(b as u32), any_time());
+    let out = c.take_batch(any_now());
+    assert!(out.len() == 2, "both datagrams are handed to the flush");
+    assert!(holds(&c, a) && holds(&c, b), "both sent packets are outstanding");
+    let mut expect = 2;
+    let mut i = 0;
+    while i < 3 {
+        if i < p.n {
+            assert!(holds(&c, p.s[i]), "sending retires nothing");
+            if p.s[i] != a && p.s[i] != b {
+                expect += 1;
+            }
+        }
+        i += 1;
+    }
+    assert!(c.in_flight_packets == expect, "distinct sequence numbers are counted once");
+    check_inv(&c, &[p.s[0], p.s[1], a, b]);
+    if p.n == 2 {
+        check_inv(&c, &[p.s[0], p.s[1], p.s[2], a]);
+    }
+    kani::cover!(b <= p.hw && a > p.hw && p.hw != i32::MIN, "the SECOND packet of the batch is a retransmission below the mark");
+    kani::cover!(a <= p.hw && b < a && p.hw != i32::MIN, "both below the mark, descending");
+    core::mem::forget(out);
+    core::mem::forget(c);
+}
+
 /// Cumulative ACK: retires exactly the outstanding numbers at or below it – whatever the previous
 /// mark was (in-order, duplicate, stale, <= 64 ahead, far ahead).
 fn c02_cumulative_ack_step_g<const BASE: i32>() {
@@ -420,5 +456,23 @@ fn c02_history_4_high() {
 #[kani::stub(srtla_core::connection::RttTracker::update_estimate, no_rtt_update)]
 fn c02_history_4_mid() {
     c02_history_4_g::<MID>();
+}
+
+#[kani::proof]
+#[kani::unwind(6)]
+fn c02_take_batch_step_low() {
+    c02_take_batch_step_g::<LOW>();
+}
+
+#[kani::proof]
+#[kani::unwind(6)]
+fn c02_take_batch_step_high() {
+    c02_take_batch_step_g::<HIGH>();
+}
+
+#[kani::proof]
+#[kani::unwind(6)]
+fn c02_take_batch_step_mid() {
+    c02_take_batch_step_g::<MID>();
 }
 
